@@ -17,6 +17,11 @@ driver, and an oracle that states the property on the implementation's own tenso
              target action to the TRUE [low, high] itself instead of calling the learner's clamp.  Double-Q learners:
              the online network is pushed away from its target (pretraining + seeded weight noise) until the two greedy
              actions differ on a live row; the reference gathers the TARGET's value at the ONLINE argmax.)
+* (loss and meta suites: every tensor of the experience batch is fingerprinted around learn() — a learn step must
+             not change its inputs —, learn() is called a second time on the SAME batch objects and its loss compared
+             with the reference from a pristine copy, and cooperative multi-agent batches hand ONE reward tensor
+             object to all agents.  The metamorphic pair is two agents built and trained twice from the same seeds;
+             clone() is not involved there.)
 * (multi-agent batches give every agent its OWN done flags — one agent done, another not, on the same row —
              in the loss and the meta suite; the meta suite then judges agent by agent)
 * meta     : metamorphic and exact.  Two identical copies of an agent (clones of one parent) learn
@@ -36,6 +41,10 @@ driver, and an oracle that states the property on the implementation's own tenso
              learn -> one pass of Mutations.mutation() of EVERY kind (none, parameter, activation, rl_hp,
              architecture; unit probability vectors) -> learn, for every learner, always on the LIVE
              target modules (re-read from the agent after the mutation), and after a checkpoint round trip,
+             the clone of a TRAINED agent must carry the PARENT's target (and online) tensors and its first step is
+             judged against the parent's target as "previous"; a sweep sets every constructor option of every
+             learner (read from the signatures) to a non-default value, one at a time; the set of trainable
+             parameters must not shrink across learn steps;
              with tau = 1 x policy_freq in {2,3} x >= 4 steps for every learner (targets bit-unchanged between
              delay steps), and after every step no target tensor may share storage with an online parameter, and n direct soft_update() calls
              against the closed form.  "Targets REALLY move": after a firing step with tau > 0 a
@@ -43,6 +52,7 @@ driver, and an oracle that states the property on the implementation's own tenso
 """
 from __future__ import annotations
 
+import copy
 import inspect
 import json
 import os
@@ -65,6 +75,7 @@ MUT_KINDS = ("none", "param", "act", "rl_hp", "arch")
 SINGLE_LOSS = [a for a in LOSS_ALGOS if not a.startswith("MA")]
 SINGLE_TRACK = [a for a in TRACK_ALGOS if not a.startswith("MA")]
 FINDING_SHARED_ENCODER = "C08-shared-encoder-target-hard-copy"
+FINDING_INPUT_ACTIONS = "C08-learn-overwrites-batch-actions"
 REL_TOL = 1e-5
 BLEND_TOL = 1e-6
 
@@ -96,8 +107,41 @@ def build_agent(case: dict):
         kw["combined_reward"] = bool(case["combined_reward"])
     if case.get("prelude") == "mut-rl_hp":
         kw["hp_config"] = agents.default_hp_config(algo)     # something for the rl_hp mutation to mutate
+    sig = inspect.signature(agents.algo_class(algo).__init__).parameters
+    for k, v in (case.get("opts") or {}).items():
+        if k in sig:
+            kw[k] = v
     with box_bounds(case.get("bounds", "sym")):
         return agents.build(algo, case.get("family", "vector"), seed=int(case["seed"]), **kw)
+
+
+#: non-default values of the constructor options of the learners (one at a time in the option sweep).
+#: Options that are not listed and not skipped are reported in the evidence notes.
+OPTION_VALUES = {
+    "double": [True], "normalize_images": [False], "tau": [1.0], "policy_freq": [1, 3], "share_encoders": [False, True],
+    "n_step": [1, 5], "combined_reward": [True], "noise_std": [0.1], "num_atoms": [7], "beta": [0.7], "prior_eps": [1e-3],
+    "O_U_noise": [False], "expl_noise": [0.3], "vect_noise_dim": [2], "mean_noise": [0.1], "theta": [0.3], "dt": [0.05],
+    "batch_size": [4], "learn_step": [3], "lr": [1e-2], "lr_actor": [1e-2], "lr_critic": [1e-4], "gamma": [0.5],
+}
+OPTION_SKIP = {"self", "observation_space", "action_space", "observation_spaces", "action_spaces", "agent_ids", "index",
+               "hp_config", "net_config", "device", "accelerator", "actor_network", "critic_network", "actor_networks",
+               "critic_networks", "mut", "wrap", "cudagraphs", "torch_compiler", "v_min", "v_max"}
+
+
+def option_sweep(algo: str) -> tuple[list[tuple[str, object]], list[str]]:
+    """(option, non-default value) pairs read from the constructor's signature, and the options not covered"""
+    sig = inspect.signature(agents.algo_class(algo).__init__).parameters
+    pairs, unknown = [], []
+    for name, p in sig.items():
+        if name in OPTION_SKIP:
+            continue
+        if name not in OPTION_VALUES:
+            unknown.append(name)
+            continue
+        for v in OPTION_VALUES[name]:
+            if p.default is inspect.Parameter.empty or v != p.default:
+                pairs.append((name, v))
+    return pairs, unknown
 
 
 class box_bounds:
@@ -224,6 +268,26 @@ def perturb_next(batch, donor, rows: list[int], multi: bool) -> None:
     else:
         for a, b in zip(obs_leaves(unpack(batch)[3]), obs_leaves(unpack(donor)[3])):
             a[idx] = b[idx]
+
+
+def batch_leaves(x, path: str = "batch") -> list[tuple[str, torch.Tensor]]:
+    """every tensor of an experience batch (TensorDict / dict / tuple / list, nested), with its path"""
+    if isinstance(x, torch.Tensor):
+        return [(path, x)]
+    if isinstance(x, (tuple, list)):
+        return [t for i, e in enumerate(x) for t in batch_leaves(e, f"{path}[{i}]")]
+    if hasattr(x, "keys"):
+        return [t for k in sorted(x.keys(), key=str) for t in batch_leaves(x[k], f"{path}[{k!r}]")]
+    return []
+
+
+def fingerprint(batch) -> dict:
+    return {p: (tuple(t.shape), str(t.dtype), walker.tensor_value(t)) for p, t in batch_leaves(batch)}
+
+
+def changed_inputs(before: dict, batch) -> list[str]:
+    now = fingerprint(batch)
+    return [p for p in before if now.get(p) != before[p]] + [p for p in now if p not in before]
 
 
 def gen_dones(rng, n: int) -> list[int]:
@@ -378,6 +442,11 @@ def make_case_batch(agent, case, seed_offset: int = 0, dones=None):
         new = {aid: torch.as_tensor(case["ma_dones"][aid], dtype=old[aid].dtype).reshape(old[aid].shape)
                for aid in old}
         batch = agents.TupleBatch((batch[0], batch[1], batch[2], batch[3], new), form="ma_tuple")
+    if algo in ("MADDPG", "MATD3") and case.get("team_reward"):
+        # a cooperative task: every agent is handed one and the same reward tensor OBJECT
+        shared = batch[2][list(batch[2].keys())[0]]
+        batch = agents.TupleBatch((batch[0], batch[1], {aid: shared for aid in batch[2]}, batch[3], batch[4]),
+                                  form="ma_tuple")
     return batch
 
 
@@ -411,13 +480,24 @@ def run_loss_case(chk: Check, case: dict):
     batch = make_case_batch(agent, case)
     diverge_online(agent, case, batch)
     lseed = int(case["seed"]) + 5
-    line, defs, info = eval_networks(agent, case, batch, lseed)
+    pristine = copy.deepcopy(batch)                 # the batch as the caller handed it over
+    before = fingerprint(batch)
+    line, defs, info = eval_networks(agent, case, pristine, lseed)
     agents.seed_all(lseed)
     ret = agent.learn(batch)
     got = returned_losses(algo, agent, ret)
     out = chk.driver.run(["reset", line])[1]
     chk.corr["model_lines"] += 1
-    problems = []
+    problems, findings = [], []
+    # a learn step must not change the experiences it was given ...
+    touched = changed_inputs(before, batch)
+    # ... so that learning again from the SAME batch objects minimises the loss of that batch: the reference is
+    # computed from the pristine copy with the networks as they are now
+    line2, defs2, _info2 = eval_networks(agent, case, copy.deepcopy(pristine), lseed + 1)
+    agents.seed_all(lseed + 1)
+    got2 = returned_losses(algo, agent, agent.learn(batch))
+    reuse_bad = [i for i, (a, b) in enumerate(zip(got2, defs2)) if not (np.isfinite(a) and close(a, b))]
+    touched2 = changed_inputs(before, batch)
     if out in ("bad-op", "reject", "nan"):
         model = None
     else:
@@ -435,6 +515,19 @@ def run_loss_case(chk: Check, case: dict):
             problems.append(f"{case['algo']}: learn returned loss {a!r} but the definition "
                             f"mean((q - (r + gamma*(1-d)*q'))^2) on the networks' own outputs gives {b!r} (entry {i})"
                             + extra)
+    first_ok = not problems
+    changed = sorted(set(touched + touched2))
+    if changed or (reuse_bad and first_ok):
+        parts = []
+        if changed:
+            parts.append(f"learn() changed the experiences it was given: {changed[:4]}")
+        if reuse_bad and first_ok:
+            i = reuse_bad[0]
+            parts.append(f"learning a second time from the same batch objects returned loss {got2[i]!r} where the batch's "
+                         f"loss (from a pristine copy, current networks) is {defs2[i]!r} (entry {i})" + extra)
+        msg = f"{case['algo']}: " + "; ".join(parts)
+        only_actions = algo in ("DDPG", "TD3") and changed and all("action" in p or p.endswith("[1]") for p in changed)
+        (findings if only_actions else problems).append(msg)
     impl_line = " ".join(f"{v:.6g}" for v in got)
     model_line = out if model is None else " ".join(f"{v:.6g}" for v in model)
     agree = model is not None and len(model) == len(got) and all(close(a, b) for a, b in zip(got, model))
@@ -447,18 +540,35 @@ def run_loss_case(chk: Check, case: dict):
             tags.append("clip-differs-from-symmetric-clip")
     if info.get("argmax_differs") and case["algo"].endswith("-double"):
         tags.append("online-and-target-argmax-differ")
+    if case.get("team_reward"):
+        tags.append("team-reward-tensor-shared")
+    tags.append("inputs-unchanged" if not (touched or touched2) else "INPUTS-CHANGED")
     return agree, impl_line, model_line, problems, tags, \
-        {"driver_op": line[:200] + ("…" if len(line) > 200 else ""), "info": info}
+        {"driver_op": line[:200] + ("…" if len(line) > 200 else ""), "info": info, "second_learn": got2,
+         "second_reference": defs2, "findings_inputs": findings}
 
 
 # ----------------------------------------------------------------------------- metamorphic suite
-def identical_clones(parent, case):
-    a, b = parent.clone(), parent.clone()
+def trained_agent(case):
+    agent = build_agent(case)
+    pretrain(agent, case, int(case.get("pretrain", 1)))
+    if case.get("diverge"):
+        diverge_online(agent, case, make_case_batch(agent, case))
+    return agent
+
+
+def identical_pair(case):
+    """two agents in the same state for the metamorphic comparison: built and trained twice from the same
+    seeds (every step of that is seeded).  clone() is deliberately not used here: whether a clone is faithful
+    is checked where the property talks about it (tracking suite, prelude 'clone').
+    Returns (a, b, problem or None)."""
+    a, b = trained_agent(case), trained_agent(case)
     wa, wb = all_weights(a), all_weights(b)
-    if list(wa) != list(wb) or any(not torch.equal(wa[k], wb[k]) for k in wa):
-        raise InfraError(f"C08 meta: two clones of one {case['algo']} parent are not identical "
-                         "(cannot set up the metamorphic pair)")
-    return a, b
+    diff = [k for k in wa if k not in wb or not torch.equal(wa[k], wb[k])] + [k for k in wb if k not in wa]
+    if diff:
+        return a, b, (f"{case['algo']}: constructing and training the agent twice under identical seeds gives different "
+                      f"weights ({len(diff)} tensors, e.g. {diff[:3]}): learn() is not a function of (weights, batch, seed)")
+    return a, b, None
 
 
 def run_meta_case(chk: Check, case: dict, rows=None):
@@ -469,11 +579,10 @@ def run_meta_case(chk: Check, case: dict, rows=None):
     if algo == "RainbowDQN":
         return run_meta_rainbow(chk, case, rows)
     multi = algo in ("MADDPG", "MATD3")
-    parent = build_agent(case)
-    pretrain(parent, case, int(case.get("pretrain", 1)))
-    if case.get("diverge"):
-        diverge_online(parent, case, make_case_batch(parent, case))
-    a, b = identical_clones(parent, case)
+    a, b, unequal = identical_pair(case)
+    if unequal:
+        return [unequal], [f"meta-{case['algo']}", "pair-not-reproducible"], {}
+    parent = a
     ids = list(parent.agent_ids) if multi else []
     judge = int(case.get("judge", 0))
     if multi and case.get("ma_dones"):
@@ -495,10 +604,12 @@ def run_meta_case(chk: Check, case: dict, rows=None):
             perturb_next(bt, donor, target_rows, multi)
         batches.append(bt)
     lseed = int(case["seed"]) + 5
-    rets = []
+    rets, touched = [], []
     for ag, bt in zip((a, b), batches):
+        fp = fingerprint(bt)
         agents.seed_all(lseed)
         rets.append(ag.learn(bt))
+        touched += changed_inputs(fp, bt)
     la, lb = returned_losses(algo, a, rets[0]), returned_losses(algo, b, rets[1])
     wa, wb = all_weights(a), all_weights(b)
     differing = [k for k in wa if not torch.equal(wa[k], wb[k])]
@@ -538,8 +649,15 @@ def run_meta_case(chk: Check, case: dict, rows=None):
                                 f"{len(differing)} weight tensors differ afterwards, e.g. {differing[:3]}")
     if case.get("perturb") == "live":
         tags.append("sensitive-live-row" if changed else "INSENSITIVE-live-row")
-    return problems, tags, {"perturbed_rows": target_rows, "loss": la, "loss_perturbed": lb,
-                            "differing_tensors": differing[:5], "changed": changed}
+    detail = {"perturbed_rows": target_rows, "loss": la, "loss_perturbed": lb,
+              "differing_tensors": differing[:5], "changed": changed}
+    if touched:
+        msg = f"{case['algo']}: learn() changed the experiences it was given: {sorted(set(touched))[:4]}"
+        if algo in ("DDPG", "TD3") and all("action" in p or p.endswith("[1]") for p in touched):
+            detail["findings_inputs"] = [msg]
+        else:
+            problems.append(msg)
+    return problems, tags, detail
 
 
 GRAD_REL_TOL = 1e-5        # measured float noise of the clipped gradient: <= 3e-7 of its largest entry
@@ -562,9 +680,10 @@ def run_meta_rainbow(chk: Check, case: dict, rows=None):
     nstep = variant in ("nstep", "per_nstep")
     per = variant in ("per", "per_nstep")
     fam = case.get("family", "vector")
-    parent = build_agent(case)
-    pretrain(parent, case, int(case.get("pretrain", 1)))
-    a, b = identical_clones(parent, case)
+    a, b, unequal = identical_pair(case)
+    if unequal:
+        return [unequal], [f"meta-RainbowDQN-{variant}", "pair-not-reproducible"], {}
+    parent = a
     d1 = list(case["dones"])
     dn = list(case.get("n_dones") or case["dones"])
     n = batch_size_of(parent)
@@ -594,7 +713,7 @@ def run_meta_rainbow(chk: Check, case: dict, rows=None):
                                                    dones=dn), rowsn, False)
         return bt, ex
     lseed = base_seed + 5
-    rets, grads = [], []
+    rets, grads, touched = [], [], []
     for ag, which in ((a, 0), (b, 1)):
         bt, ex = pair(which)
         kw = {}
@@ -602,9 +721,11 @@ def run_meta_rainbow(chk: Check, case: dict, rows=None):
             kw["per"] = True
         if ex is not None:
             kw["n_experiences"] = ex
+        fp = fingerprint((bt, ex))
         agents.seed_all(lseed)
         rets.append(ag.learn(bt, **kw))
         grads.append(grads_of(ag))
+        touched += changed_inputs(fp, (bt, ex))
     la, lb = float(rets[0][0]), float(rets[1][0])
     pa = None if rets[0][2] is None else np.asarray(rets[0][2], dtype=np.float64).reshape(-1)
     pb = None if rets[1][2] is None else np.asarray(rets[1][2], dtype=np.float64).reshape(-1)
@@ -638,6 +759,8 @@ def run_meta_rainbow(chk: Check, case: dict, rows=None):
             problems.append(f"{what}: the gradient changed by {gdiff:.3g} (largest entry {gmax:.3g})")
         if not w_ok:
             problems.append(f"{what}: the weights after the step differ by up to {wdiff:.3g} (lr {lr:g})")
+    if touched:
+        problems.append(f"RainbowDQN[{variant}]: learn() changed the experiences it was given: {sorted(set(touched))[:4]}")
     tags = [f"meta-RainbowDQN-{variant}", f"perturbed-{min(len(rows1) + len(rowsn), 4)}-rows",
             "combined-reward" if bool(parent.combined_reward) else "single-reward"]
     if nstep and any(x != y2 for x, y2 in zip(d1, dn)):
@@ -651,6 +774,17 @@ def run_meta_rainbow(chk: Check, case: dict, rows=None):
 
 
 # ----------------------------------------------------------------------------- tracking suite
+def trainable_names(agent) -> set[str]:
+    """the tensors an optimiser can train and a soft update can reach: nn.Parameters with requires_grad of
+    every online and target network"""
+    out = set()
+    for lab, on, tg in target_pairs(agent):
+        for side, m in (("online", on), ("target", tg)):
+            for n, p in unwrap(m).named_parameters():
+                out.add(f"{lab}~{side}.{n}")
+    return out
+
+
 def shared_storage(agent) -> list[str]:
     """target tensors whose storage is also the storage of a tensor of an online (evaluation) network:
     such a target follows every in-place optimiser step and cannot be a lagged copy"""
@@ -725,7 +859,31 @@ def apply_prelude(agent, case):
     algo = base_algo(case["algo"])
     note = {}
     if prelude == "clone":
-        agent = agent.clone()
+        parent = agent
+        parent_t = {lab: snap(tg) for lab, _o, tg in target_pairs(parent)}
+        parent_o = {lab: snap(on) for lab, on, _t in target_pairs(parent)}
+        parent_train = trainable_names(parent)
+        agent = parent.clone()
+        # "also directly after clone": the clone continues from the PARENT's networks.  Its target must be the
+        # parent's lagging target (and its online network the parent's), otherwise its next learn step bootstraps
+        # from other weights and its target is not tau*online + (1-tau)*previous
+        unfaithful = []
+        for lab, on, tg in target_pairs(agent):
+            for side, mod, ref in (("target", tg, parent_t.get(lab, {})), ("online", on, parent_o.get(lab, {}))):
+                now = weights(mod)
+                bad = [k for k, v in ref.items() if k not in now or now[k].shape != v.shape
+                       or not torch.equal(now[k].detach(), v)]
+                if bad:
+                    eq_online = side == "target" and all(
+                        k in weights(on) and weights(on)[k].shape == now[k].shape
+                        and torch.equal(now[k].detach(), weights(on)[k].detach()) for k in bad if k in now)
+                    unfaithful.append(f"{lab} ({side} network): {len(bad)} of {len(ref)} tensors differ from the parent's, "
+                                      f"e.g. {bad[0]}" + ("; they equal the clone's ONLINE weights" if eq_online else ""))
+        note["clone_unfaithful"] = unfaithful
+        note["parent_targets"] = parent_t
+        lost = sorted(parent_train - trainable_names(agent))
+        if lost:
+            note["clone_lost_trainable"] = lost
     elif prelude == "mutation" or prelude.startswith("mut-"):
         # one pass of Mutations.mutation() of exactly one kind (unit probability vector).  Every pass, also a
         # "no mutation" one, re-creates the shared (target) networks from the evaluation networks.
@@ -779,7 +937,20 @@ def run_track_case(chk: Check, case: dict):
     fam = case.get("family", "vector")
     agent = build_agent(case)
     pretrain(agent, case, int(case.get("pretrain", 1)))
-    agent, note = apply_prelude(agent, case)
+    prelude = case.get("prelude", "fresh")
+    try:
+        agent, note = apply_prelude(agent, case)
+    except InfraError:
+        raise
+    except Exception as e:
+        import traceback
+        what = {"clone": "cloned", "load": "saved and restored"}.get(prelude, "passed through Mutations.mutation()")
+        msg = (f"{case['algo']}: after {case.get('pretrain', 1)} learn step(s) the agent cannot be {what} "
+               f"(prelude {prelude} raised {type(e).__name__}: {str(e)[:160]}), so it cannot go on learning and its "
+               f"target network cannot follow tau*online + (1-tau)*previous 'directly after clone, mutation and "
+               f"checkpoint load'")
+        return True, [], [], [msg], [f"track-{case['algo']}", f"prelude-{prelude}", f"raised-{type(e).__name__}"], \
+            {"traceback": traceback.format_exc().strip().splitlines()[-6:], "findings": []}
     tau = float(agent.tau)
     pf = policy_freq_of(algo, agent)
     prng = _random.Random(int(case["seed"]) ^ 0x5EED)
@@ -792,15 +963,31 @@ def run_track_case(chk: Check, case: dict):
                      " ".join(frac(v) for v in read_sample(agent, pos, "target")))
     impl_lines.append("ok")
     moved_any = False
+    for u in note.get("clone_unfaithful", []):
+        problems.append(f"{case['algo']}: the clone of an agent trained for {case.get('pretrain', 1)} learn step(s) does not "
+                        f"continue from the parent's networks: {u}; its next Bellman target and soft update start from "
+                        f"weights that are not the previous target")
+    if note.get("clone_lost_trainable"):
+        problems.append(f"{case['algo']}: clone() lost trainable tensors: {note['clone_lost_trainable'][:3]}")
+    parent_targets = note.pop("parent_targets", None)
+    trainable = trainable_names(agent)
     aliased = bool(shared_storage(agent))
     if aliased:
         problems.append(f"{case['algo']}: target and online share storage before the first tracked step "
                         f"(prelude {case.get('prelude', 'fresh')}): e.g. {shared_storage(agent)[0]}")
     for step in range(int(case.get("steps", 3))):
         before = {lab: snap(tg) for lab, _o, tg in target_pairs(agent)}
+        if step == 0 and parent_targets is not None and not note.get("clone_unfaithful"):
+            before = parent_targets          # the "previous weights" of a clone's first step are the PARENT's target
         c_before = counter_of(agent)
         ret = agents.learn_once(agent, algo, fam, seed=int(case["seed"]) + 31 + step,
-                                variant=case.get("variant", "plain"))
+                                variant=case.get("variant", "plain"), **(case.get("learn_kw") or {}))
+        now_trainable = trainable_names(agent)
+        if trainable - now_trainable:
+            gone = sorted(trainable - now_trainable)
+            problems.append(f"{case['algo']}: learn step {step} removed {len(gone)} tensors from the trainable parameters "
+                            f"(they can no longer be optimised or reached by soft_update through parameters()), e.g. {gone[:2]}")
+        trainable = now_trainable
         expect_fire = (c_before + 1) % pf == 0 if algo in DELAYED else True
         seen_fire = fired_observed(algo, agent, ret)
         if seen_fire is not None and seen_fire != expect_fire:
@@ -1039,6 +1226,38 @@ def gen_track_case(rng, tier: str, name: str | None = None, prelude: str | None 
     return case
 
 
+def gen_option_cases(rng, tier: str, name: str) -> list[dict]:
+    """one tracking case per (constructor option, non-default value) of the learner, one option at a time"""
+    algo = base_algo(name)
+    pairs, _unknown = option_sweep(algo)
+    out = []
+    for opt, val in pairs:
+        if opt == "double" and name.endswith("-double"):
+            continue
+        c = gen_track_case(rng, tier, name, "fresh")
+        c["opts"] = {opt: val}
+        c["direct"] = 0
+        if opt == "tau":
+            c["tau"] = val
+        elif c["tau"] == 1.0:
+            c["tau"] = 0.25
+        if opt == "policy_freq":
+            c["policy_freq"] = val
+        if opt == "share_encoders":
+            c["share"] = val
+        if opt == "gamma":
+            c.pop("gamma", None)
+        if opt == "n_step":
+            c["n_step"] = val
+        if opt == "normalize_images":
+            c["family"] = "image"
+        pf = int(c.get("policy_freq", 2 if algo in DELAYED else 1))
+        c["steps"] = max(2, pf + 1) if algo.startswith("MA") else max(3, pf + 1)
+        c["pretrain"] = min(c["pretrain"], 1)
+        out.append(c)
+    return out
+
+
 # ----------------------------------------------------------------------------- driving one case
 def run_case(chk: Check, case: dict):
     """uniform result: dict(agree, impl, model, problems, tags, detail)"""
@@ -1057,10 +1276,16 @@ def run_case(chk: Check, case: dict):
         raise
     except Exception as e:  # the implementation raised on a legal configuration
         import traceback
+        frames = traceback.extract_tb(e.__traceback__)
+        if frames and str(ROOT / "harness") in str(frames[-1].filename):
+            # the innermost frame is the harness itself: a bug of the machinery, never a violation
+            raise InfraError(f"C08 harness error in {frames[-1].name} line {frames[-1].lineno}: "
+                             f"{type(e).__name__}: {e}") from e
         tb = traceback.format_exc().strip().splitlines()
         return dict(agree=True, impl=[], model=[], tags=[f"raised-{type(e).__name__}"], detail={"traceback": tb[-6:]},
-                    problems=[f"{case['algo']} ({kind}, prelude {case.get('prelude', '-')}) raised "
-                              f"{type(e).__name__}: {str(e)[:200]}"])
+                    problems=[f"{case['algo']}: a learn step on a legal configuration/batch ({kind} suite, prelude "
+                              f"{case.get('prelude', '-')}, options {case.get('opts') or {}}) raised {type(e).__name__}: "
+                              f"{str(e)[:200]} — no Bellman loss is minimised and no target is updated"])
     raise InfraError(f"unknown case kind {kind!r}")
 
 
@@ -1176,6 +1401,11 @@ def run(chk: Check) -> None:
         c = gen_loss_case(rng, chk.tier, nm)
         c["diverge"], c["pretrain"], c["tau"] = True, 2, rng.choice([0.5, 0.01])
         cases.append((c, None))
+    # cooperative batches: every agent is handed one and the same reward tensor object
+    for nm in ("MATD3", "MADDPG"):
+        c = gen_loss_case(rng, chk.tier, nm, ma_dones=True)
+        c["team_reward"] = True
+        cases.append((c, None))
     for _ in range(max(0, n_loss - len(LOSS_ALGOS))):
         cases.append((gen_loss_case(rng, chk.tier), None))
     n0 = len(cases)
@@ -1206,6 +1436,30 @@ def run(chk: Check) -> None:
     for pre in ("clone", "load"):
         for nm in (TRACK_ALGOS if not quick else rng.sample(TRACK_ALGOS, 3) + ["DQN"]):
             cases.append((gen_track_case(rng, chk.tier, nm, pre), None))
+    # clone of a TRAINED agent (target already behind the online network): every learner
+    for nm in TRACK_ALGOS:
+        if quick and nm.startswith("MA") and rng.random() < 0.5:
+            continue
+        c = gen_track_case(rng, chk.tier, nm, "clone")
+        c["pretrain"], c["tau"], c["direct"] = 2, rng.choice([0.25, 0.01]), 0
+        if base_algo(nm) in DELAYED:
+            c["policy_freq"] = rng.choice([1, 2])
+        c["steps"] = 2
+        cases.append((c, None))
+    # non-default constructor options, one at a time, read from the signatures
+    uncovered = {}
+    for nm in TRACK_ALGOS:
+        if nm == "DQN-double":
+            continue
+        oc = gen_option_cases(rng, chk.tier, nm)
+        if quick and nm.startswith("MA"):
+            oc = rng.sample(oc, min(2, len(oc)))
+        cases += [(c, None) for c in oc]
+        unk = option_sweep(base_algo(nm))[1]
+        if unk:
+            uncovered[base_algo(nm)] = unk
+    if uncovered:
+        chk.notes.append(f"constructor options not covered by the option sweep: {uncovered}")
     # learn -> Mutations.mutation of EVERY kind -> learn steps, for every learner with a target network
     for nm in TRACK_ALGOS:
         kinds = list(MUT_KINDS)
@@ -1247,6 +1501,10 @@ def run(chk: Check) -> None:
             sensitive[0] += 1
         if "INSENSITIVE-live-row" in tags:
             sensitive[1] += 1
+        inputs_known = res["detail"].get("findings_inputs") if isinstance(res.get("detail"), dict) else None
+        if inputs_known:
+            chk.finding(FINDING_INPUT_ACTIONS, inputs_known[0], {"case": case, "oracle_problems": inputs_known,
+                                                                 "detail": res["detail"]})
         known = res["detail"].get("findings") if isinstance(res.get("detail"), dict) else None
         if known and not res["problems"]:
             # only the analysed defect shows (the model disagrees on the same tensors): KNOWN-FINDING when
@@ -1441,6 +1699,52 @@ def selftest(chk: Check) -> None:
                 for i in range(3)])
     finally:
         DQN.update = orig_update2
+    # (11) clone() re-synchronises the target with the online network
+    orig_clone = CQN.clone
+
+    def resync_clone(self, *a, **k):
+        c = orig_clone(self, *a, **k)
+        c.actor_target.load_state_dict(c.actor.state_dict())
+        return c
+    CQN.clone = resync_clone
+    try:
+        expect("clone() throws the parent's lagging target away",
+               [{**base, "kind": "track", "algo": "CQN", "tau": 0.25, "pretrain": 2, "steps": 2, "prelude": "clone", "direct": 0}])
+    finally:
+        CQN.clone = orig_clone
+    # (12) a non-default configuration loses its special case: encoders re-shared although share_encoders=False
+    from agilerl.utils.algo_utils import share_encoder_parameters as _share
+    orig_learn2 = TD3.learn
+
+    def reshare(self, experiences, *a, **k):
+        out = orig_learn2(self, experiences, *a, **k)
+        if out[0] is not None:
+            _share(self.actor, self.critic_1, self.critic_2)
+            _share(self.actor_target, self.critic_target_1, self.critic_target_2)
+        return out
+    TD3.learn = reshare
+    try:
+        expect("encoders re-shared on delay steps although share_encoders=False",
+               [{**base, "kind": "track", "algo": "TD3", "tau": 0.25, "policy_freq": 2, "share": False, "steps": 3,
+                 "pretrain": 0, "prelude": "fresh", "direct": 0}])
+    finally:
+        TD3.learn = orig_learn2
+    # (13) the Bellman target is accumulated in place on the caller's reward tensor
+    from agilerl.algorithms import maddpg as maddpg_mod
+    MADDPG = maddpg_mod.MADDPG
+    orig_ma2 = MADDPG.learn
+
+    def inplace_rewards(self, experiences):
+        out = orig_ma2(self, experiences)
+        for r in {id(v): v for v in experiences[2].values()}.values():
+            r += 0.125
+        return out
+    MADDPG.learn = inplace_rewards
+    try:
+        expect("learn writes into the caller's reward tensor",
+               [{**base, "kind": "loss", "algo": "MADDPG", "action_kind": "box", "dones": ma["agent_0"], "ma_dones": ma}])
+    finally:
+        MADDPG.learn = orig_ma2
     chk.notes.append("self-test: detected " + "; ".join(caught))
 
 
@@ -1450,7 +1754,9 @@ def replay(chk: Check, path: str) -> int:
     c = c.get("replay", c)
     case = c.get("case", c)
     res = run_case(chk, case)
-    res["problems"] = res["problems"] + list(res["detail"].get("findings", []) if isinstance(res["detail"], dict) else [])
+    if isinstance(res["detail"], dict):
+        res["problems"] = res["problems"] + list(res["detail"].get("findings", [])) + \
+            list(res["detail"].get("findings_inputs", []))
     print(json.dumps({"case": case, "agree_with_model": res["agree"], "oracle_problems": res["problems"],
                       "impl": res["impl"][-4:], "model": res["model"][-4:], "detail": res["detail"]},
                      indent=1, default=str))
